@@ -6,10 +6,11 @@ package props
 // L1 (the property on the real code, oracles independent of the mirror):
 //   * the Lean SPEC decoder applied to the bytes the Go encoder produced returns the input;
 //   * Go Decode(Encode(xs)) == xs;
-// Observations (ctx.Observe: behaviour of the Go DECODERS on streams this library's encoders never
-// produce, outside what C04 states, reported in the evidence but never part of the verdict):
 //   * foreign streams: spec-conformant encodings produced by a harness-side writer with a random
-//     run segmentation (what another Parquet writer may emit) should be decoded by Go to the values;
+//     run segmentation (what another Parquet writer may emit) must be decoded by Go to the values
+//     (levels, int32 / dictionary indexes, boolean, legacy BIT_PACKED);
+// Observations (ctx.Observe: behaviour of the Go DECODERS on malformed / truncated input, outside
+// what C04 states, reported in the evidence but never part of the verdict):
 //   * malformed streams (random bytes, mutated valid streams): the Go decoder should never panic,
 //     and when both Go and the spec decoder accept, they should return the same values.
 // L2 (real code vs Lean mirror): Go encoder bytes == mirror bytes, byte-exact. On the asm build the
@@ -840,6 +841,9 @@ func c04rleEncodeCase(ctx *core.Ctx, r *rand.Rand, bufs *c04rleBufs, b *c04rleBa
 	})
 	// ---- L1: Go round trip
 	dec, dst := c04rleGoDecode(r, bufs, c.kind, c.w, enc)
+	if c.kind == "bool" {
+		c04rleBoolDecMirror(ctx, b, enc, dec, dst)
+	}
 	if dst != "" || !c04rleEqU32(dec, c.vals) {
 		ctx.Fail("L1", "rle-go-roundtrip-"+c.kind, "Decode(Encode(xs)) != xs: "+dst,
 			c04rleDetail(c, ctx.Variant, map[string]any{"encoded": hexEnc, "decoded": core.JoinInts(dec)}))
@@ -896,6 +900,34 @@ const c04rleKeyBool = "rle-bool-decode-rle-run-not-expanded-per-value"
 const c04rleKeyI32Trunc = "rle-int32-decode-truncated-bitpacked-run-reads-past-input"
 const c04rleKeyLevelsW0 = "rle-levels-decode-bitpacked-run-at-width-0"
 
+// c04rleBoolDecMirror: L2 for the boolean DECODER - the bytes DecodeBoolean returns must equal the
+// Lean mirror of the repaired decodeBits (which models dst as a bit list; this comparison is what
+// ties the byte-level shifting of the Go code to it).
+func c04rleBoolDecMirror(ctx *core.Ctx, b *c04rleBatch, stream []byte, dec []uint32, st string) {
+	if strings.HasPrefix(st, "panic") {
+		return
+	}
+	impl := "err"
+	if st == "" {
+		bs := make([]byte, len(dec))
+		for i, v := range dec {
+			bs[i] = byte(v)
+		}
+		impl = "ok " + core.Hex(bs)
+	}
+	hexS := core.Hex(stream)
+	b.ask("rle.godecbool "+hexS, func(ans string) {
+		model := ans
+		if strings.HasPrefix(ans, "err") {
+			model = "err"
+		}
+		if model != impl {
+			ctx.Fail("L2", "rle-decode-mirror-bool", "DecodeBoolean differs from the Lean mirror of decodeBits",
+				map[string]any{"stream": hexS, "impl": impl, "model": ans, "variant": ctx.Variant, "replay_case": "rle-dec bool 0 " + hexS})
+		}
+	})
+}
+
 // c04rleForeignCase: a conformant stream written by the harness's own writer must be read by the
 // Go decoder (and by the spec decoder) as the values it encodes.
 func c04rleForeignCase(ctx *core.Ctx, r *rand.Rand, bufs *c04rleBufs, b *c04rleBatch, c c04rleCase, want []uint32, stream []byte) {
@@ -919,6 +951,7 @@ func c04rleForeignCase(ctx *core.Ctx, r *rand.Rand, bufs *c04rleBufs, b *c04rleB
 	})
 	dec, st := c04rleGoDecode(r, bufs, c.kind, c.w, stream)
 	if c.kind == "bool" {
+		c04rleBoolDecMirror(ctx, b, stream, dec, st)
 		dec = c04rleUnpackBools(dec)
 	}
 	if st == "" && len(dec) >= len(want) && c04rleEqU32(dec[:len(want)], want) {
@@ -943,7 +976,14 @@ func c04rleForeignCase(ctx *core.Ctx, r *rand.Rand, bufs *c04rleBufs, b *c04rleB
 	if len(dec) > 64 {
 		dec = dec[:64]
 	}
-	ctx.Observe(key, what, detail(map[string]any{"decoded_prefix": core.JoinInts(dec)}))
+	if key == c04rleKeyLevelsW0 {
+		// a level stream at bit width 0 is never written (columns without levels store none):
+		// treated as malformed input, outside the property
+		ctx.Observe(key, what, detail(map[string]any{"decoded_prefix": core.JoinInts(dec)}))
+		return
+	}
+	// L1: "match the format spec" - the Go decoders must read every conformant stream
+	ctx.Fail("L1", key, what, detail(map[string]any{"decoded_prefix": core.JoinInts(dec)}))
 }
 
 // c04rleMalformedCase: arbitrary bytes. Never panic; both accept => same values (Go values are
@@ -973,6 +1013,9 @@ func c04rleMalformedCase(ctx *core.Ctx, r *rand.Rand, bufs *c04rleBufs, b *c04rl
 		return m
 	}
 	dec, st := c04rleGoDecode(r, bufs, kind, w, stream)
+	if kind == "bool" {
+		c04rleBoolDecMirror(ctx, b, stream, dec, st)
+	}
 	switch {
 	case strings.HasPrefix(st, "panic"):
 		ctx.Hist("rle.malformed.go", "panic")
@@ -1075,6 +1118,28 @@ func c04rleBitpackedCase(ctx *core.Ctx, r *rand.Rand, bufs *c04rleBufs, b *c04rl
 				c04rleDetail(c, ctx.Variant, map[string]any{"impl": "ok " + hexEnc, "model": ans}))
 		}
 	})
+	// L1: the (only) conformant BIT_PACKED encoding of the values, written by the harness's own
+	// MSB-first packer, must be read back by the Go decoder
+	var foreign []byte
+	var acc uint32
+	nb := 0
+	for _, v := range c.vals {
+		for k := c.w - 1; k >= 0; k-- {
+			acc = acc<<1 | (v>>uint(k))&1
+			if nb++; nb == 8 {
+				foreign, acc, nb = append(foreign, byte(acc)), 0, 0
+			}
+		}
+	}
+	if nb > 0 {
+		foreign = append(foreign, byte(acc<<uint(8-nb)))
+	}
+	ctx.Case("foreign bitpacked "+strconv.Itoa(c.w)+" "+core.Hex(foreign), len(c.vals) >= 8)
+	ctx.Hist("rle.foreign", "bitpacked")
+	if fdec, fst := c04rleGoDecode(r, bufs, "bitpacked", c.w, foreign); fst != "" || len(fdec) < len(c.vals) || !c04rleEqU32(fdec[:len(c.vals)], c.vals) {
+		ctx.Fail("L1", "bitpacked-decode-foreign-stream", "Go BIT_PACKED decoder misreads the conformant (MSB-first) encoding of the values: "+fst,
+			c04rleDetail(c, ctx.Variant, map[string]any{"stream": core.Hex(foreign), "decoded": core.JoinInts(fdec)}))
+	}
 	dec, dst := c04rleGoDecode(r, bufs, "bitpacked", c.w, enc)
 	if dst != "" || len(dec) < len(c.vals) || !c04rleEqU32(dec[:len(c.vals)], c.vals) {
 		ctx.Fail("L1", "bitpacked-go-roundtrip", "DecodeLevels(EncodeLevels(xs)) does not start with xs: "+dst,
